@@ -753,6 +753,16 @@ def simulate(desc, rng=None):
     old = (H.get_context, H.datetime)
     H.get_context = lambda method=None: SimContext(s)
     H.datetime = SimDatetime
+    old_psutil = H.psutil
+    if desc.get("nw_none"):
+        # n_workers=None: the documented default takes the physical core count from psutil
+        # (module-level name seam); the simulated machine has desc["n_workers"] cores
+        class _FakePsutil:
+            @staticmethod
+            def cpu_count(logical=True):
+                return desc["n_workers"]
+
+        H.psutil = _FakePsutil
     real = _wrap_factories(run)
     gc_was = gc.isenabled()
     gc.disable()
@@ -780,7 +790,8 @@ def simulate(desc, rng=None):
     sys.unraisablehook = lambda u: unraisable.append(repr(u.exc_value))
     try:
         try:
-            out.result = H.parallel_add(arg_items, callback, n_workers=desc["n_workers"], cms_args=desc.get("cms_args"),
+            out.result = H.parallel_add(arg_items, callback, n_workers=None if desc.get("nw_none") else desc["n_workers"],
+                                        cms_args=desc.get("cms_args"),
                                         hh_args=desc.get("hh_args"), hll_args=desc.get("hll_args"), tag=run["tag"])
         except _Abort:
             out.hang = s.hang or s.abort
@@ -803,6 +814,7 @@ def simulate(desc, rng=None):
         s.line_p, s.lreplay = 0.0, None
         boot.CLOCK.hook = None
         H.get_context, H.datetime = old
+        H.psutil = old_psutil
         _restore_factories(real)
         sys.unraisablehook = old_hook
         if gc_was:
